@@ -626,4 +626,22 @@ theorem dir_refs (ts : List IType) :
   decide
 
 
+-- ------------------------------------------------------------------ unfolding the search on concrete registries
+
+theorem dfs_nil (ts : List IType) (c : Nat) (vis : List String) : dfs ts c [] vis = vis := by
+  rw [dfs.eq_def]
+
+theorem dfs_seen (ts : List IType) (c : Nat) (n : String) (st vis : List String) (h : vis.contains n = true) :
+    dfs ts c (n :: st) vis = dfs ts c st vis := by
+  rw [dfs.eq_def]; simp only [h, dite_true]
+
+theorem dfs_visit (ts : List IType) (c : Nat) (n : String) (st vis : List String) (t : IType)
+    (h : vis.contains n = false) (hl : lookup ts n = some t) (hv : t.vis.holds c = true) :
+    dfs ts c (n :: st) vis = dfs ts c (children c t ++ st) (n :: vis) := by
+  rw [dfs.eq_def]
+  simp only [h, Bool.false_eq_true, dite_false]
+  split
+  · rename_i hn; rw [hl] at hn; cases hn
+  · rename_i t' hn; rw [hl] at hn; cases hn; simp only [hv, if_true]
+
 end AGV.Lemmas.Introspect
